@@ -1002,7 +1002,7 @@ func (s *Entry) collectArgs(ctx context.Context, kvps *Attrs, roughSize int, lvl
 	if s.ctxKeysWanted() {
 		s.fromCtx(ctx, kvps)
 	}
-	if len(s.attrs) > 0 {
+	if len(s.attrs) > 0 || IsAnyBitsSet(LattrsR) {
 		s.walkParentAttrs(ctx, lvl, s, kvps)
 	}
 	if len(args) > 0 {
